@@ -1,7 +1,16 @@
-// Package vrand replaces "math/rand" in instrumented sources: a deterministic stream per execution.
+// Package vrand replaces "math/rand" in scheduler-instrumented sources: deterministic streams.
+// The package-level functions are safe for concurrent use (as in math/rand); a *Rand is not, and every
+// method reports a write of the generator state to the race detector of the scheduler.
 package vrand
 
-import "verif/shim/vcrand"
+import (
+	"fmt"
+	"runtime"
+	"unsafe"
+
+	"verif/shim/sched"
+	"verif/shim/vcrand"
+)
 
 func Read(p []byte) (int, error) { return vcrand.Read(p) }
 func Uint32() uint32 {
@@ -11,4 +20,79 @@ func Uint32() uint32 {
 }
 func Uint64() uint64 { return uint64(Uint32())<<32 | uint64(Uint32()) }
 func Int63() int64   { return int64(Uint64() >> 1) }
+func Int() int       { return int(Uint64() >> 1) }
 func Intn(n int) int { return int(Uint64() % uint64(n)) }
+func Int63n(n int64) int64 {
+	return int64(Uint64() % uint64(n))
+}
+func Int31n(n int32) int32 { return int32(Uint64() % uint64(n)) }
+func Float64() float64     { return float64(Uint64()>>11) / (1 << 53) }
+func Seed(int64)           {}
+
+// Source mirrors math/rand.Source.
+type Source interface {
+	Int63() int64
+	Seed(seed int64)
+}
+
+type src struct{ state uint64 }
+
+func (s *src) next() uint64 {
+	s.state = s.state*6364136223846793005 + 1442695040888963407
+	x := s.state
+	x ^= x >> 33
+	x *= 0xff51afd7ed558ccd
+	x ^= x >> 33
+	return x
+}
+func (s *src) Int63() int64    { return int64(s.next() >> 1) }
+func (s *src) Seed(seed int64) { s.state = uint64(seed) }
+
+// NewSource returns a deterministic source.
+func NewSource(seed int64) Source { return &src{state: uint64(seed)} }
+
+// Rand mirrors math/rand.Rand: NOT safe for concurrent use.
+type Rand struct {
+	src Source
+	_   [8]byte
+}
+
+// New returns a generator over s.
+func New(s Source) *Rand { return &Rand{src: s} }
+
+func (r *Rand) touch() {
+	if g := sched.G; g != nil {
+		site := "math/rand.(*Rand)"
+		if _, file, line, ok := runtime.Caller(2); ok {
+			for i := len(file) - 1; i >= 0; i-- {
+				if file[i] == '/' {
+					file = file[i+1:]
+					break
+				}
+			}
+			site = fmt.Sprintf("%s:%d (*rand.Rand)", file, line)
+		}
+		g.Access(unsafe.Pointer(r), true, site)
+	}
+}
+
+func (r *Rand) Int63() int64   { r.touch(); return r.src.Int63() }
+func (r *Rand) Uint32() uint32 { r.touch(); return uint32(r.src.Int63() >> 31) }
+func (r *Rand) Uint64() uint64 {
+	r.touch()
+	return uint64(r.src.Int63())<<1 ^ uint64(r.src.Int63())
+}
+func (r *Rand) Int() int             { r.touch(); return int(uint(r.src.Int63())) }
+func (r *Rand) Int31() int32         { r.touch(); return int32(r.src.Int63() >> 32) }
+func (r *Rand) Intn(n int) int       { r.touch(); return int(uint64(r.src.Int63()) % uint64(n)) }
+func (r *Rand) Int63n(n int64) int64 { r.touch(); return int64(uint64(r.src.Int63()) % uint64(n)) }
+func (r *Rand) Int31n(n int32) int32 { r.touch(); return int32(uint64(r.src.Int63()) % uint64(n)) }
+func (r *Rand) Float64() float64     { r.touch(); return float64(r.src.Int63()>>10) / (1 << 53) }
+func (r *Rand) Seed(seed int64)      { r.touch(); r.src.Seed(seed) }
+func (r *Rand) Read(p []byte) (int, error) {
+	r.touch()
+	for i := range p {
+		p[i] = byte(r.src.Int63() >> 20)
+	}
+	return len(p), nil
+}
